@@ -16,8 +16,8 @@ NEEDS = ["cli", "cli:ovf"]
 STATS = ["d-fu-li", "d-tajima", "f2", "f3", "f4", "fst", "king", "pi", "pi-xy", "r0", "r1", "s", "sum", "theta"]
 RULE = ("(1) EVERY statistic (14) x EVERY shape with 1-4 axes and lengths 1-4 (340 shapes) plus all 1-2 axis shapes up to length 10 and all 9-entry shapes, zero/positive data; (2) view/fold/create option values at and "
         "beyond their bounds (axes, projection targets 0 / larger / wrong dimensionality / 2^63 / 2^64-1, precision 0/17/65535/65536/10^6, threads); "
-        "(2b) error exits and log lines with stderr pointing at /dev/full; (3) empty and 1-10 byte inputs and texts cut off after / interrupted by multi-byte UTF-8 characters, to all four subcommands by path and stdin; (4) absurd declared shapes in text and npy headers (0, 2^32, 2^63, "
-        "wrapping products, up to 22000 axes); (5) contradictory sample lists; (6) hostile bytes: every single-byte substitution {^01, ^80, 00, ff, +1} "
+        "(2b) error exits and log lines with stderr pointing at /dev/full; (2c) successful work whose stdout is a pipe without reader (EPIPE), /dev/full (ENOSPC) or a read-only descriptor (EBADF), outputs from bytes to beyond the pipe buffer; (3) empty and 1-10 byte inputs and texts cut off after / interrupted by multi-byte UTF-8 characters, to all four subcommands by path and stdin; (4) absurd declared shapes in text and npy headers (0, 2^32, 2^63, "
+        "wrapping products, up to 22000 axes); (5) contradictory sample lists: hand-written ones plus EVERY list of 1-4 entries over {2 samples} x {label A, label B, no label} (1554 lists, -s and -S) and seeded 5-9 entry lists over 3 samples x 4 labels; (6) hostile bytes: every single-byte substitution {^01, ^80, 00, ff, +1} "
         "at every offset of small vcf / vcf.gz / bgzf bcf / raw bcf / npy / text seed files (deterministic), the same on the uncompressed payload "
         "re-BGZF'd, plus seeded multi-site mutations, splices, digit runs -> huge numbers, truncations. Each run on the release and the "
         "overflow-checked binary. Verdict per run: exit 0, or exit != 0 with a diagnostic; refuting: exit 101 / 'panicked at', death by signal, "
